@@ -859,7 +859,7 @@ def _inl(rule):
     return run
 
 
-INLINED_VIEW = False
+INLINED_VIEW = True
 RULES_PLAIN = [rule_attr_reads, rule_item_reads, rule_underscore, rule_restricted, rule_propagation, rule_guard_owner, rule_index_removal]
 RULES = [_inl(r_) for r_ in RULES_PLAIN] if INLINED_VIEW else RULES_PLAIN
 EXPLANATION = (
